@@ -45,13 +45,15 @@ func randomCases(tier string) int {
 func (check) Exhaustive(string) bool { return false }
 
 func (check) Rule() string {
-	return "chains of 2-4 correlated trees (operand k+1 = mutation of operand k w.p. 3/4; 3 keys repeated at every depth; nil/{}/[]/primitive/object/list clashes at the same key) merged under one of the 5 global policies, each operand given as map, interface-keyed map, reflect.StructOf struct, *Config or child Config; observed by Unpack into map and slice and compared with the merge model; plus identity/self-merge/append-length laws; plus (thorough: all, quick: a seed-chosen slice of) pairs of small trees (<=3 nodes below the root, 2 keys) x 5 policies. Non-trivial = at least two operands are non-empty and share a key or both carry a list; distinct = distinct (policy, operands, representations)."
+	return "chains of 2-4 correlated trees (operand k+1 = mutation of operand k w.p. 3/4; 3 keys repeated at every depth; nil/{}/[]/primitive/object/list clashes at the same key; w.p. 1/4 per pair an explicit empty list planted in operand k against nil/{}/[] at the same place of operand k+1) merged under one of the 5 global policies (w.p. 1/3 the policy changes from step to step), each operand given as map, interface-keyed map, reflect.StructOf struct, *Config or child Config; w.p. 1/8 a step with the target itself as source is inserted before another step; w.p. 1/3 the very same *Config object of an earlier step is merged once more after at least one other merge; after every step the target is observed by Unpack into map and slice and compared with the merge model, and the empty-list laws (kept / taken) are asserted on the raw unpacked data; plus identity/self-merge/append-length laws; plus (thorough: all, quick: a seed-chosen slice of) pairs of small trees (<=3 nodes below the root, 2 keys) x 5 policies, observed after each of the two merges. Non-trivial = at least two operands are non-empty and share a key or both carry a list; distinct = distinct (policies, operands, representations)."
 }
 
 func (check) Assumptions() []string {
 	return []string{
 		"merge model written from the statement of C01 (internal/model/merge.go)",
-		"canonical comparison: numbers by value, nil == {} == [] == absent key inside dictionaries",
+		"canonical comparison with the model: numbers by value, nil == {} == [] == absent key inside dictionaries",
+		"in addition, on the raw data: an explicit empty list of the target stays an empty list when the source holds nil, {}, [] or nothing there; an explicit empty list of the source appears where the target held nothing or a primitive. Not compared: nil <- [], {} <- [], presence of nil-valued keys, nodes carrying both parts (decimal keys)",
+		"a *Config source merged a second time must act like the tree it was built from (the model merges that tree again); a step with the target as source is modelled as merging a snapshot of the target",
 		"VarExp off; keys are non-numeric and contain no path separator (C20/C05 cover those)",
 	}
 }
@@ -269,10 +271,18 @@ func (check) Run(seed int64, tier string, idx int, verbose bool) harness.Result 
 			}
 		}
 	}
-	// the target itself as the source of a step that is followed by another one
+	// the target itself as the source of a step that is followed by another
+	// one; half of the time it doubles the lists (append / prepend) and the
+	// next step merges index-wise into the doubled lists
 	if r.Intn(8) == 0 {
 		at := 1 + r.Intn(len(ops)-1)
 		self := operand{rep: "self", pol: ops[at].pol, reuse: -1, self: true}
+		if r.Intn(2) == 0 {
+			self.pol = 3 + r.Intn(2) // append, prepend
+			if r.Intn(2) == 0 {
+				ops[at].pol = 0 // default
+			}
+		}
 		ops = append(ops[:at], append([]operand{self}, ops[at:]...)...)
 	}
 	// the very same *Config source once more, after at least one other merge
@@ -394,8 +404,9 @@ func runChain(res *harness.R, r *rand.Rand, base int, ops []operand, verbose boo
 						note = fmt.Sprintf(" (the source unpacked to %s when built, to %s now, err=%v)", orig[op.reuse], now, err)
 					}
 				}
-				if sig == "merge-model-mismatch" && selfSeen {
-					sig = "merge-model-mismatch:chain-with-self-merge-step"
+				if sig == "merge-model-mismatch" && selfSeen && plainTwinAgrees(res, ops[:i+1], trees[:i+1]) {
+					// the same steps with the target's contents handed in as plain data are fine
+					sig = "merge-model-mismatch:only-with-target-as-its-own-source"
 				}
 				res.Violate(sig, "after merging operand %d (%s, %v): got %s want %s%s; %s", i, rep, pol.p, got.canon, want, note, desc())
 				return
@@ -460,6 +471,58 @@ func runChain(res *harness.R, r *rand.Rand, base int, ops []operand, verbose boo
 	laws(res, policies[base].p, policies[base].opts, ops, desc)
 }
 
+// hasNestedMixed reports whether a node below the root carries both parts
+// (plain Go data cannot express that).
+func hasNestedMixed(n *model.Node, root bool) bool {
+	if !n.IsSub() {
+		return false
+	}
+	if !root && len(n.D) > 0 && len(n.A) > 0 {
+		return true
+	}
+	for _, v := range n.D {
+		if hasNestedMixed(v, false) {
+			return true
+		}
+	}
+	for _, v := range n.A {
+		if hasNestedMixed(v, false) {
+			return true
+		}
+	}
+	return false
+}
+
+// plainTwinAgrees repeats the steps on a fresh target with every source -
+// the target-as-source steps too - handed in as freshly built plain data, and
+// reports whether that twin agrees with the model. Used only to classify a
+// deviation seen in a chain that contains a target-as-source step.
+func plainTwinAgrees(res *harness.R, ops []operand, trees []*model.Node) bool {
+	c := ucfg.New()
+	m := &model.Node{Kind: model.KSub}
+	for k, t := range trees {
+		if t == nil || hasNestedMixed(t, true) {
+			return false
+		}
+		rep := "map"
+		if len(t.D) > 0 && len(t.A) > 0 {
+			rep = "config-mixed"
+		}
+		src, _, err := source(nil, t, rep)
+		if err != nil {
+			return false
+		}
+		pol := policies[ops[k].pol]
+		res.Eval(1)
+		if err := c.Merge(src, pol.opts...); err != nil {
+			return false
+		}
+		model.Merge(m, t.Copy(), nil, model.Global(pol.p))
+	}
+	got, err := observe(c)
+	return err == nil && got.canon == m.CanonTop()
+}
+
 // laws asserts the derived, model-independent laws of the statement.
 func laws(res *harness.R, p model.Policy, opts []ucfg.Option, ops []operand, desc func() string) {
 	x := ops[0].tree
@@ -520,7 +583,7 @@ func laws(res *harness.R, p model.Policy, opts []ucfg.Option, ops []operand, des
 		// append / prepend: length is the sum, both orders preserved
 		if (p == model.PAppend || p == model.PPrepend) && len(ops) > 1 {
 			a, b := ops[0].tree, ops[1].tree
-			if len(a.A) > 0 && len(b.A) > 0 && len(a.D) == 0 && len(b.D) == 0 {
+			if !ops[1].self && len(a.A) > 0 && len(b.A) > 0 && len(a.D) == 0 && len(b.D) == 0 {
 				c5, _ := ucfg.NewFrom(a.ToGo())
 				if err := c5.Merge(b.ToGo(), opts...); err != nil {
 					res.Violate("law-append", "append/prepend merge failed: %v", err)
@@ -567,25 +630,36 @@ func runEnum(res *harness.R, seed int64, tier string, chunk int, verbose bool) {
 	for i := start; i < start+enumChunk && i < total; i++ {
 		a, b := smallTrees[i/n], smallTrees[i%n]
 		for _, pol := range policies {
-			ops := []operand{{a, "map"}, {b, "map"}}
 			c := ucfg.New()
 			m := &model.Node{Kind: model.KSub}
 			panicked, pv, where := harness.Safe(func() {
-				for _, op := range ops {
+				prev, err := observe(c)
+				if err != nil {
+					res.Violate("unpack-error", "Unpack of the empty config failed: %v", err)
+					return
+				}
+				for _, t := range []*model.Node{a, b} {
 					res.Eval(1)
-					if err := c.Merge(op.tree.ToGo(), pol.opts...); err != nil {
+					if err := c.Merge(t.ToGo(), pol.opts...); err != nil {
 						res.Violate("merge-error", "Merge returned %v; policy=%v A=%s B=%s", err, pol.p, a, b)
 						return
 					}
-					model.Merge(m, op.tree.Copy(), nil, model.Global(pol.p))
-				}
-				got, err := obs.Top(c)
-				if err != nil {
-					res.Violate("unpack-error", "Unpack failed: %v; policy=%v A=%s B=%s", err, pol.p, a, b)
-					return
-				}
-				if want := m.CanonTop(); got != want {
-					res.Violate("merge-model-mismatch", "enumerated pair: got %s want %s; policy=%v A=%s B=%s", got, want, pol.p, a, b)
+					aBefore := m.Copy()
+					model.Merge(m, t.Copy(), nil, model.Global(pol.p))
+					got, err := observe(c)
+					res.Eval(1)
+					if err != nil {
+						res.Violate("unpack-error", "Unpack failed: %v; policy=%v A=%s B=%s", err, pol.p, a, b)
+						return
+					}
+					if want := m.CanonTop(); got.canon != want {
+						res.Violate("merge-model-mismatch", "enumerated pair: got %s want %s; policy=%v A=%s B=%s", got.canon, want, pol.p, a, b)
+						return
+					}
+					emptinessLaws(res, prev, got, aBefore, t, pol.p, func() string {
+						return fmt.Sprintf("enumerated pair: policy=%v A=%s B=%s", pol.p, a, b)
+					})
+					prev = got
 				}
 			})
 			if panicked {
